@@ -36,6 +36,19 @@ def _scratch():
     atexit.register(lambda: os.getpid() == pid and shutil.rmtree(root, ignore_errors=True))
 
 
+def _process_local_tqdm_lock():
+    """sqlfluff's fix loop wraps its rule loop in tqdm, and tqdm's default class lock contains a multiprocessing RLock (a
+    cross-process semaphore). Created in this process before the worker pools are forked, it would be shared by every
+    worker, and a worker killed while holding it (pool.terminate after a counterexample or a timeout) would block all later
+    workers forever. A plain thread lock is per process after fork."""
+    try:
+        import threading
+        from tqdm import tqdm
+        tqdm.set_lock(threading.RLock())
+    except Exception:
+        pass
+
+
 def main(argv=None) -> int:
     ap = argparse.ArgumentParser()
     ap.add_argument("prop")
@@ -51,6 +64,7 @@ def main(argv=None) -> int:
         seed = 0
     t0 = time.time()
     _scratch()
+    _process_local_tqdm_lock()
     mod = importlib.import_module(f"harness.{prop.lower()}")
     units = mod.units(a.tier, seed)
 
@@ -97,11 +111,26 @@ def main(argv=None) -> int:
     par = [u for u in units if not u.sharded]
     seq = [u for u in units if u.sharded]
     outcomes = {}
-    if len(par) > 1 and a.procs > 1:
+    # NOTE: harness factories rebind names inside sqlfluff modules; they must never run in THIS process, from which the
+    # workers of later units are forked (a lone non-sharded unit used to run here and leaked its stubs into them).
+    if par and a.procs > 1:
         _UNITS, _EXCL = par, excluded
         with mp.get_context("fork").Pool(min(a.procs, len(par))) as pool:
-            for u, o in zip(par, pool.map(_run_idx, range(len(par)), chunksize=1)):
-                outcomes[u.name] = o
+            res = pool.map_async(_run_idx, range(len(par)), chunksize=1)
+            try:
+                outs = res.get(timeout=max(u.timeout_s for u in par) + 120)
+            except mp.TimeoutError:
+                outs = None   # a worker was lost (multiprocessing.Pool never resubmits its task): fall back to this process
+        if outs is None:
+            outs = []
+            for i, u in enumerate(par):   # one fresh child per unit, still never in this process
+                with mp.get_context("fork").Pool(1) as p1:
+                    try:
+                        outs.append(p1.apply_async(_run_idx, (i,)).get(timeout=u.timeout_s + 120))
+                    except mp.TimeoutError:
+                        outs.append(runner.Outcome(u.name, "ERROR", error="unit lost twice (worker died or blocked)"))
+        for u, o in zip(par, outs):
+            outcomes[u.name] = o
     else:
         for u in par:
             outcomes[u.name] = runner.run_unit(u, excluded, procs=1)
